@@ -16,8 +16,14 @@
 (*   Begin      leaf.merge (the leaf stores what it is told) and, when the   *)
 (*              role forwards (status: always, state: critical only), the    *)
 (*              call parent.update(v) is pending   (taskrole.go:updateState) *)
-(*   MergeAt    aggregator.merge(carried) under the aggregator's own lock    *)
-(*              (safestate.go:merge / safestatus.go:merge)                   *)
+(*   MergeEnter   aggregator.merge(carried): lock(role), read the cache, compute  *)
+(*                the new value (shortcut or walk over the children); when    *)
+(*                another update holds the role's lock the thread is blocked   *)
+(*                (MergeUnblock = the same once the lock is free)             *)
+(*   MergeAssign  store the computed value, unlock(role)                      *)
+(*                (safestate.go:merge / safestatus.go:merge; the lock is an    *)
+(*                explicit variable; MergeAtomic = FALSE models a merge that   *)
+(*                computes outside the lock and locks only the assignment)     *)
 (*   ReadCache  the aggregator reads its own cache outside the lock and      *)
 (*              calls its parent with it  (aggregatorrole.go: r.parent.      *)
 (*              updateState(r.state.get()))                                  *)
@@ -36,11 +42,14 @@ CONSTANTS
   MaxEpisodes,    \* how often a second update may start while another one is in flight
   NoOpinionInit,  \* FALSE: code as is (every role starts STANDBY)
                   \* TRUE : repaired (an aggregator without critical descendant starts INVARIANT)
-  TrustCarried    \* TRUE : code as is (merge takes the carried MIXED / ERROR / UNDEFINED at face value)
+  TrustCarried,   \* TRUE : code as is (merge takes the carried MIXED / ERROR / UNDEFINED at face value)
                   \* FALSE: repaired (merge always recomputes from the children's current values)
+  MergeAtomic     \* TRUE : code as is (the role's lock is held from the read of the cache to the assignment)
+                  \* FALSE: a broken merge (read + compute without the lock, only the assignment locked)
 
-VARIABLES shape, cS, cT, thr, last, episodes
-vars == <<shape, cS, cT, thr, last, episodes>>
+VARIABLES shape, cS, cT, thr, last, episodes,
+          lock    \* lock[kind][role] = thread holding the role's state / status mutex (0 = free)
+vars == <<shape, cS, cT, thr, last, episodes, lock>>
 
 (* ------------------------------------------------------------------------ *)
 (* The two products                                                         *)
@@ -212,7 +221,7 @@ MergeStatus(c, n, s) ==
   ELSE IF TrustCarried /\ s = "UNDEFINED" THEN "UNDEFINED"
   ELSE AggStatus(c, n)
 
-Idle == [kind |-> "-", leaf |-> 0, at |-> 0, carried |-> "-", pc |-> "idle"]
+Idle == [kind |-> "-", leaf |-> 0, at |-> 0, carried |-> "-", newv |-> "-", pc |-> "idle"]
 Threads == 1..MaxThreads
 Active == {t \in Threads : thr[t].pc # "idle"}
 Quiescent == Active = {}
@@ -237,6 +246,7 @@ Init ==
   /\ thr = [t \in Threads |-> Idle]
   /\ last = [state |-> "none", status |-> "none"]
   /\ episodes = 0
+  /\ lock = [k \in {"state", "status"} |-> [n \in 1..Len(Shapes[shape].parent) |-> 0]]
 
 \* taskrole.go / callrole.go: updateState, updateStatus
 Begin(t, l, k, v) ==
@@ -250,17 +260,46 @@ Begin(t, l, k, v) ==
                     ELSE cT' = [cT EXCEPT ![l] = v] /\ UNCHANGED cS
   /\ IF k = "state" /\ ~Crit(l)
        THEN UNCHANGED thr                                   \* only critical roles forward state
-       ELSE thr' = [thr EXCEPT ![t] = [kind |-> k, leaf |-> l, at |-> Parent(l), carried |-> v, pc |-> "call"]]
-  /\ UNCHANGED <<shape, last>>
+       ELSE thr' = [thr EXCEPT ![t] = [kind |-> k, leaf |-> l, at |-> Parent(l), carried |-> v, newv |-> "-", pc |-> "call"]]
+  /\ UNCHANGED <<shape, last, lock>>
 
-\* aggregatorrole.go: updateState / updateStatus up to and including merge
-MergeAt(t) ==
+\* safestate.go / safestatus.go: merge, from lock(role) to the point where the new value is known.
+\* Equal value: nothing to do (lock and unlock within the step).
+EnterBody(t) ==
+  LET n == thr[t].at
+      s == thr[t].carried
+      k == thr[t].kind
+      cur == IF k = "state" THEN cS[n] ELSE cT[n]
+  IN IF cur = s
+       THEN thr' = [thr EXCEPT ![t].pc = "merged"] /\ UNCHANGED lock
+       ELSE /\ thr' = [thr EXCEPT ![t].pc = "computed",
+                                  ![t].newv = IF k = "state" THEN MergeState(cS, n, s) ELSE MergeStatus(cT, n, s)]
+            /\ lock' = IF MergeAtomic THEN [lock EXCEPT ![k][n] = t] ELSE lock
+
+\* aggregatorrole.go: updateState / updateStatus call merge: the thread leaves its gate and either
+\* gets the role's lock or waits for it
+MergeEnter(t) ==
   /\ thr[t].pc = "call" /\ thr[t].at # 0
-  /\ LET n == thr[t].at s == thr[t].carried IN
-       IF thr[t].kind = "state"
-         THEN cS' = [cS EXCEPT ![n] = MergeState(cS, n, s)] /\ UNCHANGED cT
-         ELSE cT' = [cT EXCEPT ![n] = MergeStatus(cT, n, s)] /\ UNCHANGED cS
-  /\ thr' = [thr EXCEPT ![t].pc = "merged"]
+  /\ IF MergeAtomic /\ lock[thr[t].kind][thr[t].at] # 0
+       THEN thr' = [thr EXCEPT ![t].pc = "blocked"] /\ UNCHANGED lock
+       ELSE EnterBody(t)
+  /\ UNCHANGED <<shape, cS, cT, last, episodes>>
+
+\* the lock became free: the waiting merge goes on by itself
+MergeUnblock(t) ==
+  /\ thr[t].pc = "blocked" /\ lock[thr[t].kind][thr[t].at] = 0
+  /\ EnterBody(t)
+  /\ UNCHANGED <<shape, cS, cT, last, episodes>>
+
+\* t.state = <computed value>; unlock(role)
+MergeAssign(t) ==
+  /\ thr[t].pc = "computed"
+  /\ LET n == thr[t].at IN
+       /\ IF thr[t].kind = "state"
+            THEN cS' = [cS EXCEPT ![n] = thr[t].newv] /\ UNCHANGED cT
+            ELSE cT' = [cT EXCEPT ![n] = thr[t].newv] /\ UNCHANGED cS
+       /\ lock' = IF MergeAtomic THEN [lock EXCEPT ![thr[t].kind][n] = 0] ELSE lock
+  /\ thr' = [thr EXCEPT ![t].pc = "merged", ![t].newv = "-"]
   /\ UNCHANGED <<shape, last, episodes>>
 
 \* aggregatorrole.go: r.parent.updateState(r.state.get()): the cache is read again, outside the lock
@@ -269,18 +308,18 @@ ReadCache(t) ==
   /\ LET n == thr[t].at IN
        thr' = [thr EXCEPT ![t].carried = IF thr[t].kind = "state" THEN cS[n] ELSE cT[n],
                           ![t].at = Parent(n), ![t].pc = "call"]
-  /\ UNCHANGED <<shape, cS, cT, last, episodes>>
+  /\ UNCHANGED <<shape, cS, cT, last, episodes, lock>>
 
 \* parentadapter.go: updateState / updateStatus
 Deliver(t) ==
   /\ thr[t].pc = "call" /\ thr[t].at = 0
   /\ last' = [last EXCEPT ![thr[t].kind] = thr[t].carried]
   /\ thr' = [thr EXCEPT ![t] = Idle]
-  /\ UNCHANGED <<shape, cS, cT, episodes>>
+  /\ UNCHANGED <<shape, cS, cT, episodes, lock>>
 
 Next ==
   \/ \E t \in Threads, l \in Leaves, k \in Kinds : \E v \in LeafValues(l, k) : Begin(t, l, k, v)
-  \/ \E t \in Threads : MergeAt(t) \/ ReadCache(t) \/ Deliver(t)
+  \/ \E t \in Threads : MergeEnter(t) \/ MergeUnblock(t) \/ MergeAssign(t) \/ ReadCache(t) \/ Deliver(t)
 
 Spec == Init /\ [][Next]_vars
 
@@ -304,7 +343,11 @@ SeqStatus(c, l, v) == ClimbT([c EXCEPT ![l] = v], Parent(l), v)
 (* ------------------------------------------------------------------------ *)
 TypeOK ==
   /\ \A n \in Nodes : cS[n] \in States /\ cT[n] \in Statuses
-  /\ \A t \in Threads : thr[t].pc \in {"idle", "call", "merged"}
+  /\ \A t \in Threads : thr[t].pc \in {"idle", "call", "blocked", "computed", "merged"}
+  \* a lock is held exactly by the thread that computed and has not assigned yet
+  /\ \A k \in {"state", "status"}, n \in Nodes :
+        lock[k][n] # 0 <=> (MergeAtomic /\ \E t \in Threads : t = lock[k][n] /\ thr[t].pc = "computed"
+                                                             /\ thr[t].kind = k /\ thr[t].at = n)
 
 FoldStateInv == Quiescent => \A n \in Nodes : cS[n] = FoldState(cS, n)
 FoldStatusInv == Quiescent => \A n \in Nodes : cT[n] = FoldStatus(cT, n)
@@ -335,5 +378,5 @@ AdapterFresh ==
                /\ last.status # "none" => last.status = cT[Root]
 
 \* view that forgets what the adapter saw (for runs that do not check AdapterFresh)
-ViewNoLast == <<shape, cS, cT, thr, episodes>>
+ViewNoLast == <<shape, cS, cT, thr, episodes, lock>>
 =============================================================================
